@@ -197,7 +197,7 @@ def path_area(H):
             H.prove(H.close(res, world.area), "path_area.returns_the_measured_area")
 
 
-@obligation(("C19",), "pathops.bounding_box", functions=[S + "bounding_box", "svg_types.SVGShape.bounding_box"])
+@obligation(("C19", "C06"), "pathops.bounding_box", functions=[S + "bounding_box", "svg_types.SVGShape.bounding_box"])
 def bounding_box(H):
     """bounding_box asks the engine for the tight bounds of exactly these commands (never the control-point hull) and
     SVGShape.bounding_box turns (left, top, right, bottom) into Rect(x, y, w, h)."""
